@@ -93,6 +93,8 @@ def scenario_family(rng, tier, *, nested=True, flat=True, callbacks=True, depth=
             names = [d["name"] for d in S.devices(scn)]
             times = rs.sample(range(1, 14), rs.randrange(1, 4))
             scn["stims"] = sorted([{"real": k * 900_000 + 111, "comp": rs.choice(names)} for k in times], key=lambda x: x["real"])
+        if rs.random() < 0.15:
+            scn = S.tricky_rename(scn, rs)   # confusable component names (case, punctuation, affixes of topic names)
         out.append(scn)
     return out
 
